@@ -7,7 +7,7 @@ for d in benign/*${1:-}*/; do
   git -C /repo worktree add -q --detach $WT HEAD || exit 3
   if ! git -C $WT apply $(realpath $d/patch.diff) 2>/dev/null; then echo "$(basename $d) PATCH-DOES-NOT-APPLY"; git -C /repo worktree remove --force $WT; continue; fi
   EV=/tmp/wt_benign_ev_$$; mkdir -p $EV; cp known_findings.json $EV/
-  out=$(bin/hcsa check all -repo $WT -verif $EV 2>&1 | sed "s#$WT/##g")
+  out=$(${HCSA_BIN:-bin/hcsa} check all -repo $WT -verif $EV 2>&1 | sed "s#$WT/##g")
   bad=$(echo "$out" | grep -E '^  C[0-9]+-R|^UNDECIDED' | cut -c1-230)
   if [ -z "$bad" ]; then echo "$(basename $d) SILENT"; else echo "$(basename $d) ALARM"; echo "$bad" | sed 's/^/      /'; fi
   rm -rf $EV; git -C /repo worktree remove --force $WT
